@@ -499,10 +499,17 @@ func c05CommittedPrimary(r *vx.Rand) {
 		w.AdvanceClock(60000)
 	}
 	snap := rd.Snapshot(snapTS, 2+r.Intn(3), r.Chance(20))
+	if r.Chance(50) {
+		// the store reports the locks a batch get meets at the response level
+		w.Gate().AddFault(&hub.Fault{Kind: hub.Topo, Client: rd, Label: "lift", Repeat: true, LiftLockErr: true,
+			Match: func(kind, cmd string) bool { return kind == "bget" }})
+		rec.Count("c05:lifted-lock-errors")
+	}
 	first := pick(r, wk)
 	ok := runAll(w, scenarioTimeout, func() {
-		// the first contact: one key
-		switch r.Intn(3) {
+		// the first contact: one key (sometimes none: the batch get below meets the locks first)
+		switch r.Intn(4) {
+		case 3:
 		case 0:
 			snap.Get(first)
 		case 1:
